@@ -16,7 +16,8 @@ struct PT { std::string ops; int os = 0, idx = 0; bool plain_os = false; photon:
 struct Prog {
     std::vector<PT> pts; int nos = 0;
     uint64_t vcpu_flags = 0; uint64_t thread_flags = 0;
-    std::atomic<int> go{0}, ready{0}, finished{0};
+    std::atomic<int> go{0}, ready{0}, finished{0}, bodies_done{0};
+    bool early_join = false;     // true: a vCPU joins (and disposes) its threads as soon as they finish
     void parse(const char* s) {
         std::string cur; int os = 0; bool plain = false;
         for (const char* c = s;; c++) {
@@ -38,14 +39,23 @@ struct Prog {
             auto fn = [this, os, plain, body] {
                 ready++;
                 while (go.load() == 0) {}
-                if (plain) { for (auto& p : pts) if (p.os == os) { body(p); p.done = true; } }
+                if (plain) { for (auto& p : pts) if (p.os == os) { body(p); p.done = true; bodies_done++; } }
                 else {
                     std::vector<photon::join_handle*> jh;
                     for (auto& p : pts) if (p.os == os) {
                         PT* pp = &p;
-                        p.th = photon::thread_create11(64 * 1024, [pp, body] { body(*pp); pp->done = true; });
+                        p.th = photon::thread_create11(64 * 1024, [this, pp, body] { body(*pp); pp->done = true; bodies_done++; });
                         if (thread_flags) { /* flags are applied by harnesses that need them */ }
                         jh.push_back(photon::thread_enable_join(p.th));
+                    }
+                    // keep finished threads (their structs) alive until every body is done: a waker on another vCPU may
+                    // still hold a pointer to a waiter that timed out (see DESIGN.md, finding "stale waiter pointer")
+                    if (!early_join) {
+                        int rounds = 0;
+                        while (bodies_done.load() < (int)pts.size()) {
+                            photon::thread_usleep(5ull * 1000 * 1000);
+                            if (++rounds > 3) { mv_on_deadlock("program threads did not finish within 15 s of virtual time"); pmc_violation("stuck", "program did not finish"); }
+                        }
                     }
                     for (auto h : jh) photon::thread_join(h);
                 }
